@@ -185,10 +185,30 @@ func c17(c *Ctx) {
 		}
 		nd++
 		fs := facts.Atoms(facts.At(cl, nil))
-		ok11 := false
-		for _, a := range fs {
-			if strings.HasPrefix(a, "660000000000 < (time.Time).Sub(invoke:github.com/benbjohnson/clock.Clock.Now(") {
-				ok11 = true
+		old11 := func(fs []string) bool {
+			for _, a := range fs {
+				if strings.HasPrefix(a, "660000000000 < (time.Time).Sub(invoke:github.com/benbjohnson/clock.Clock.Now(") {
+					return true
+				}
+			}
+			return false
+		}
+		ok11 := old11(fs)
+		if !ok11 && len(cl.Call.Args) == 2 {
+			// two-phase purge: the keys to delete were collected into a local slice first; then the
+			// age test must hold wherever a key is put on that list
+			if ld, isLd := strip(cl.Call.Args[1]).(*ssa.UnOp); isLd && ld.Op == token.MUL {
+				if ia, isIA := ld.X.(*ssa.IndexAddr); isIA {
+					apps := appendsInto(ia.X)
+					ok11 = len(apps) > 0
+					for _, ap := range apps {
+						afs := facts.Atoms(facts.At(ap, nil))
+						if !old11(afs) {
+							ok11 = false
+							fs = append(fs, "key collected at "+c.rel(p.Pos(ap.Pos()))+" without the age test: "+strings.Join(afs, ";"))
+						}
+					}
+				}
 			}
 		}
 		R.Check("C17.window", R.Key("C17.window", shortFn(fn), "delete:cache"), c.rel(p.Pos(cl.Pos())), "purge removes only entries older than 11 minutes", ok11, strings.Join(fs, ";"))
